@@ -107,6 +107,8 @@ def check(case: Dict[str, Any]) -> CaseInfo:
                     classes.append(c)
             if len(ks) >= 3 and nz >= 2 and not ambiguous:
                 nontrivial = True
+            if sum(1 for k in ks[1:] if lk[k.id] <= 0) >= 2:
+                classes.append("several_activities_without_launch_on_a_stream")
             if any(lk[k.id] <= 0 for k in ks[1:]):
                 classes.append("activity_without_launch")
                 if rows[0].ts > min(k.ts for k in kern):
@@ -118,7 +120,7 @@ def check(case: Dict[str, Any]) -> CaseInfo:
 
 @st.composite
 def c06_case(draw):
-    o = Opts(steps=[0, 1], w_launch=9, w_sync=1, w_op=3, w_rt=1, max_top=6, streams=3, ensure_kernel=True, lead_op=True,
+    o = Opts(steps=[0, 1], w_launch=9, w_sync=1, w_op=3, w_rt=1, max_top=6, streams=3, ensure_kernel=True, lead_op=True, fault_none_weight=5,
              second_thread=False)
     case = draw(sim_case(o, max_ranks=2))
     all_ranks = [r["rank"] for r in case["ranks"]]
